@@ -1,6 +1,89 @@
-(* C05 (under construction) *)
-From Coq Require Import List Arith.
-From YP Require Import Base.Str Lang.Ast Comp.IR Comp.CompileBody Comp.CompileTotal.
-Theorem C05_compile_body_total : forall b cnt, exists code cnt', comp (fuel_body b) b cnt = Some (code, cnt').
-Proof. exact comp_total_exists. Qed.
-Print Assumptions C05_compile_body_total.
+(* C05 - cut commits the clause and nothing else.  Only statements; proofs are `exact <lemma>`. *)
+From Coq Require Import String.
+From Coq Require Import List Arith ZArith.
+Import ListNotations.
+From YP Require Import Base.Str Term.Term Unify.Unify Lang.Ast Comp.IR Comp.CompileBody Comp.CompileClause Comp.CompileTotal
+  Sem.Res Sem.RefSem Sem.IRSem Sem.ControlCorrect Sem.Machine Sem.ClauseSem Sem.ProgramCorrect Sem.SpecLemmas.
+
+(* For every clause body (cuts at top level, in branches of a disjunction, in then/else branches; a cut inside
+   a condition or under \+ is local to it), for every interpretation of the called goals (all solution counts) and
+   whatever the label counter is: the emitted code (for-loops, `return` for cut, the doBreak protocol)
+   yields exactly the answers of the reference semantics in order and ends by `return` exactly when the
+   reference ends by cut. *)
+Theorem C05_cut_code_correct : forall (S : Type) (I : str -> list sterm -> S -> list S * bool)
+  (J : expr -> S -> list S * bool) (assign : str -> expr -> S -> S),
+  (forall f args s, J (query_expr f args) s = I f args s) ->
+  forall n b cnt code cnt',
+  comp n b cnt = Some (code, cnt') -> nomark b = true ->
+  forall s, (let '(ys, k) := run_function J assign code s in (ys, fin_of_compl k)) = sem I b s.
+Proof. exact control_correct_function. Qed.
+Print Assumptions C05_cut_code_correct.
+
+(* whole programs: the compiled program computes the clause-level reference semantics, in which ... *)
+Theorem C05_compiled_program_computes_reference : forall n p ir,
+  compile_program p = Some ir -> good_program p ->
+  forall name args s, query n ir name args s = solveA n p name args s.
+Proof. exact machine_computes_clause_semantics. Qed.
+Print Assumptions C05_compiled_program_computes_reference.
+
+(* ... a cut reached in a clause discards the later clauses of the predicate (the answers so far stay), *)
+Theorem C05_cut_prunes_later_clauses : forall call c rest cf ys,
+  clause_res call c (clause_enter c cf) = (ys, FCut) -> clausesA call (c :: rest) cf = (ys, FCut).
+Proof. exact cut_prunes_later_clauses. Qed.
+Print Assumptions C05_cut_prunes_later_clauses.
+
+(* ... while without a cut the later clauses are tried, *)
+Theorem C05_no_cut_continues : forall call c rest cf ys,
+  clause_res call c (clause_enter c cf) = (ys, FNorm) ->
+  clausesA call (c :: rest) cf = (ys ++ fst (clausesA call rest (clause_enter c cf)), snd (clausesA call rest (clause_enter c cf))).
+Proof. exact no_cut_continues. Qed.
+Print Assumptions C05_no_cut_continues.
+
+(* ... the caller's own alternatives are untouched: a call ends normally (or by an error), never by cut, *)
+Theorem C05_cut_local_to_predicate : forall call f args c,
+  snd (sem (leafA call) (BCall f args) c) = FNorm \/ snd (sem (leafA call) (BCall f args) c) = FErr.
+Proof. exact call_never_cuts. Qed.
+Print Assumptions C05_cut_local_to_predicate.
+
+Theorem C05_query_result_after_cut : forall n p name args s c cs ys,
+  clauses_for p name (length args) = c :: cs ->
+  clausesA (solveA n p) (c :: cs) (bind_args 0 args, s) = (ys, FCut) ->
+  solveA (S n) p name args s = (map snd ys, false).
+Proof. exact solveA_cut_local. Qed.
+Print Assumptions C05_query_result_after_cut.
+
+(* ... and the reference is the textbook one: (A, !), B = the FIRST answer of A continued with ALL
+   answers of B (goals right of the cut backtrack normally), after which the clause is cut. *)
+Theorem C05_cut_spec_readable : forall (S : Type) (I : str -> list sterm -> S -> list S * bool) A B s,
+  sem I (BAnd (BAnd A BCut) B) s =
+  match sem I A s with
+  | (x :: _, _) => let '(ys, g) := sem I B x in (ys, match g with FNorm => FCut | _ => g end)
+  | ([], g) => ([], g)
+  end.
+Proof. exact cut_spec_readable. Qed.
+Print Assumptions C05_cut_spec_readable.
+
+Theorem C05_cut_first : forall (S : Type) (I : str -> list sterm -> S -> list S * bool) B s,
+  sem I (BAnd BCut B) s = let '(ys, g) := sem I B s in (ys, match g with FNorm => FCut | _ => g end).
+Proof. exact cut_first. Qed.
+Print Assumptions C05_cut_first.
+
+(* non-vacuity:  t(X,Y) :- q(X), !, q(Y).   t(z,z).   q(a). q(b).   gives (a,a), (a,b) only *)
+Local Open Scope string_scope.
+Definition cut_prog : program :=
+  [ {| c_name := d "t"; c_args := [SVar (d "X"); SVar (d "Y")];
+       c_body := BAnd (BCall (d "q") [SVar (d "X")]) (BAnd BCut (BCall (d "q") [SVar (d "Y")])) |};
+    {| c_name := d "t"; c_args := [SAtom (d "z"); SAtom (d "z")]; c_body := BTrue |};
+    {| c_name := d "q"; c_args := [SAtom (d "a")]; c_body := BTrue |};
+    {| c_name := d "q"; c_args := [SAtom (d "b")]; c_body := BTrue |} ].
+Example C05_nonvacuous :
+  good_program cut_prog /\
+  exists ir, compile_program cut_prog = Some ir /\
+  map (fun x => (den (sto x) (TVar 0), den (sto x) (TVar 1)))
+      (fst (query 10 ir (d "t") [TVar 0; TVar 1] {| sto := []; nxt := 2 |}))
+  = [(TAtom (d "a"), TAtom (d "a")); (TAtom (d "a"), TAtom (d "b"))].
+Proof.
+  split.
+  - repeat constructor.
+  - eexists. split; [vm_compute; reflexivity|]. vm_compute. reflexivity.
+Qed.
